@@ -3,6 +3,8 @@ package main
 // C10 Type IIS digestion cuts at enzyme geometry.
 
 import (
+	"go/token"
+	"go/constant"
 	"go/types"
 	"fmt"
 	"sort"
@@ -174,6 +176,64 @@ func checkEnzymeTable(c *Ctx, byName *ssa.Function) {
 			default:
 				c.ok("TABLE-ENZ", name, lit.At.Pos(), "name/key, patterns, non-palindromic site and REBASE geometry agree")
 			}
+		}
+	}
+	// whatever form the table has (literals, a list of definitions compiled in a loop): the site texts of the
+	// function that compiles the patterns come in reverse-complement pairs
+	for _, f := range funcsSorted(reachable(byName)) {
+		if !inModule(f) || f.Blocks == nil {
+			continue
+		}
+		compiles := false
+		eachInstr(f, func(i ssa.Instruction) {
+			if cl, ok := i.(*ssa.Call); ok && calleeName(cl) == "regexp.MustCompile" {
+				compiles = true
+			}
+		})
+		if !compiles {
+			continue
+		}
+		sites := map[string]token.Pos{}
+		eachInstr(f, func(i ssa.Instruction) {
+			for _, op := range i.Operands(nil) {
+				if op == nil || *op == nil {
+					continue
+				}
+				k, ok := (*op).(*ssa.Const)
+				if !ok || k.Value == nil || k.Value.Kind() != constant.String {
+					continue
+				}
+				str := constant.StringVal(k.Value)
+				if len(str) < 4 || strings.Trim(str, "ACGT") != "" {
+					continue
+				}
+				if _, have := sites[str]; !have {
+					sites[str] = i.Pos()
+				}
+			}
+		})
+		var lonely []string
+		paired := 0
+		var at token.Pos
+		for str, pos := range sites {
+			if _, ok := sites[rcOracle(str)]; ok {
+				paired++
+			} else {
+				lonely = append(lonely, fmt.Sprintf("%s (its reverse complement %s is not among the sites)", str, rcOracle(str)))
+				if at == token.NoPos || pos < at {
+					at = pos
+				}
+			}
+		}
+		sort.Strings(lonely)
+		switch {
+		case len(sites) == 0:
+		case len(lonely) == 0:
+			c.ok("TABLE-ENZ", "sites come in reverse-complement pairs:"+fname(f), f.Pos(), fmt.Sprintf("%d site texts, each with its reverse complement", len(sites)))
+		case paired >= 2:
+			c.bad("TABLE-ENZ", "sites come in reverse-complement pairs:"+fname(f), at, "the built-in enzymes are given by a site and the pattern of the opposite strand; "+strings.Join(lonely, "; ")+": that enzyme's sites on the opposite strand are looked for under the wrong text")
+		default:
+			c.undecided("TABLE-ENZ", "sites come in reverse-complement pairs:"+fname(f), f.Pos(), "site texts without a partner: "+strings.Join(lonely, "; "))
 		}
 	}
 	var missing []string
